@@ -4023,7 +4023,7 @@ def site_range_query(fns):
 
 
 def c14(fns, tier, env):
-    return finalize([site_range_query(fns), site_update_ttl(fns), site_resolve_expiry(fns)], env)
+    return finalize([site_range_query(fns), site_update_ttl(fns), site_resolve_expiry(fns), site_index_agreement(fns)], env)
 
 
 # ============================================================================ TTL sweeper
@@ -4134,6 +4134,67 @@ def site_sweeper_sampling(fns):
             ob.must_hold(len(rr) == 1 and z3.eq(idx, rr[0].ret), "the replaced slot is the drawn index")
     ob.must_hold(pushed >= 1 and replaced >= 1 and skipped >= 1, "append, replace and skip paths were reached (%d/%d/%d)" % (pushed, replaced, skipped))
     return ob.result(it, witness="c11_expiry_model")
+
+
+# ============================================================================ C14: the hashed and the ordered index move together
+INDEX_SITES = [("::update_record_with_ttl", "src/core/store/internal.rs", False), ("::update_record_with_ttl_bytes", "src/core/store/internal.rs", False),
+               ("::replace_record_if_current", "src/core/store/atomic.rs", False), ("::atomic_increment_with_timestamp_and_ttl", "src/core/store/atomic.rs", True),
+               ("::insert_if_absent", "src/core/store/atomic.rs", True), ("::insert_with_timestamp_and_ttl_internal", "src/core/store/operations.rs", True),
+               ("::insert_bytes_with_expiry", "src/core/store/operations.rs", True), ("::delete_with_timestamp", "src/core/store/operations.rs", False),
+               ("::retire_expired_if_current", "src/core/store/internal.rs", False), ("::sample_and_expire_batch", None, True),
+               ("::update_ttl::{closure#0}", "src/core/store/ttl.rs", False)]
+
+
+def site_index_agreement(fns):
+    ob = Ob("site_index_agreement", "every function that mutates the hash table (11 sites: update, replace, increment, insert-if-absent, both insert paths, delete, lazy expiry, "
+            "sweeper, TTL update), on every MIR path (one arbitrary iteration for the functions with a retry/candidate loop): a NEW hash entry comes with exactly one ordered-index "
+            "insert, a REPLACED entry with exactly one republication of its slot, a REMOVED entry with exactly one ordered-index removal, and no ordered-index mutation happens "
+            "without its hash-table counterpart – so the two indexes hold the same keys whenever no call is in flight",
+            "all paths of 11 functions; loops: one arbitrary iteration; callees havocked", None)
+    analysed = 0
+    tot = {"new": 0, "rep": 0, "rem": 0}
+    for suffix, hint, looped in INDEX_SITES:
+        f = mir.find(fns, suffix, hint)
+        it = Interp(f, loop_bound=1, pure=PURE, max_paths=20000)
+        hdr = main_loop_header(f) if looped else None
+        runs = it.run(start=hdr, stop=(hdr,)) if hdr else it.run()
+        analysed += 1
+        name = suffix.strip(":")
+        for p in runs:
+            ob.paths += 1
+            if p.status == "truncated":
+                ob.truncated += 1
+            if p.status not in ("return", "backedge"):
+                continue
+            calls = [e for e in p.events if e.kind == "call"]
+            new_h = [e for e in calls if e.callee.endswith("VacantEntry::insert_entry")]
+            rep_h = [e for e in calls if e.callee.endswith("OccupiedEntry::insert")]
+            rem_h = [e for e in calls if e.callee.endswith("OccupiedEntry::remove") or e.callee.endswith("OccupiedEntry::remove_entry")]
+            new_t = [e for e in calls if e.callee.endswith("::insert_into_tree") or e.callee.endswith("SkipMap::insert")]
+            rep_t = [e for e in calls if e.callee.endswith("::publish_to_tree")]
+            rem_t = [e for e in calls if e.callee.endswith("::remove_from_tree") or e.callee.endswith("SkipMap::remove")]
+            if suffix.startswith("::update_ttl::"):
+                # the closure runs under HashMap::update: returning the new record IS the hash replacement
+                ob.must_hold(len(rep_t) <= 1 and not new_t and not rem_t, "%s: at most one slot republication, nothing else" % name)
+                if p.ret is not None and z3.is_expr(p.ret):
+                    # the closure returns Result<(old, new, ..), FeoxError>: Ok = the entry was replaced in place
+                    some, _ = it.entails(p.pc, it.ctx.disc(it.as_u(p.ret)) == 0)
+                    none, _ = it.entails(p.pc, it.ctx.disc(it.as_u(p.ret)) == 1)
+                    if some:
+                        tot["rep"] += 1
+                        ob.must_hold(len(rep_t) == 1, "%s: handing the hash table a replacement record republishes the ordered-index slot" % name)
+                    elif none:
+                        ob.must_hold(not rep_t, "%s: no republication without a replacement" % name)
+                continue
+            tot["new"] += len(new_h); tot["rep"] += len(rep_h); tot["rem"] += len(rem_h)
+            ob.must_hold(len(new_h) == len(new_t), "%s: new hash entries (%d) and ordered-index inserts (%d) come in pairs" % (name, len(new_h), len(new_t)))
+            ob.must_hold(len(rep_h) == len(rep_t), "%s: replaced hash entries (%d) and slot republications (%d) come in pairs" % (name, len(rep_h), len(rep_t)))
+            ob.must_hold(len(rem_h) == len(rem_t), "%s: removed hash entries (%d) and ordered-index removals (%d) come in pairs" % (name, len(rem_h), len(rem_t)))
+        ob.queries += it.queries
+    ob.must_hold(analysed == len(INDEX_SITES), "all mutation sites analysed")
+    ob.must_hold(tot["new"] >= 4 and tot["rep"] >= 4 and tot["rem"] >= 3, "insert, replace and remove sites were reached (%s)" % tot)
+    ob.fn = None
+    return ob.result(None, witness="c14_range_bounds_and_limit+c11_ttl_publish+c11_sweeper_vs_recreation+c13_model_accounting_and_reopen")
 
 
 # ============================================================================ common tail
